@@ -448,7 +448,7 @@ func (x *extras) indexReuse() {
 	index := vecfc.NewIndex(func(err error) { crit = err; panic(critPanic{err}) }, vecfc.IndexConfig{Caches: vecfc.IndexCacheConfig{
 		ForklessCausePairs: cl.k.cc.fcPairs, HighestBeforeSeqSize: cl.k.cc.hbSize, LowestAfterSeqSize: cl.k.cc.laSize}})
 	_ = crit
-	life := func(life int, rv *ref.Validators, pv *pos.Validators, d *ref.DAG, lmap map[int]int) {
+	life := func(life int, rv *ref.Validators, pv *pos.Validators, d *ref.DAG, lmap map[int]int, ord []int) {
 		defer func() {
 			if r := recover(); r != nil {
 				if cp, ok := r.(critPanic); ok {
@@ -483,8 +483,9 @@ func (x *extras) indexReuse() {
 		}
 		for i, g := range order {
 			pe := cl.pool[g]
-			if sim.Mix(seed, uint64(life), uint64(i), 5)%4 == 0 {
-				// an addition that is rolled back must leave no trace
+			if life <= 2 && sim.Mix(seed, uint64(life), uint64(i), 5)%4 == 0 {
+				// an addition that is rolled back must leave no trace (lives 3-5 do without: a rollback empties the
+				// caches, and those lives are about what the caches still hold from the previous history)
 				if err := index.Add(pe.Ev); err != nil {
 					c.Violation("index-add-error", "index-add-error", "direct index drive: Add(%s) = %v", cl.descEv(pe), err)
 				}
@@ -520,12 +521,27 @@ func (x *extras) indexReuse() {
 				}
 			}
 		}
+		if life >= 3 && cl.on["fc"] && len(order) <= 90 {
+			// every pair once the whole history is indexed: what the caches kept from the previous history would show here
+			for _, ga := range order {
+				for _, gb := range order {
+					a, b := cl.pool[ga], cl.pool[gb]
+					got := index.ForklessCause(a.Ev.ID(), b.Ev.ID())
+					want := d.ForklessCause(lmap[a.L], lmap[b.L])
+					c.Count("fc_queries", 1)
+					if got != want {
+						c.Violation("forkless-cause", "forkless-cause/direct-index", "direct index drive, life %d (the same index object served another history before; weights %v): ForklessCause(A=%s, B=%s) = %v, graph definition says %v",
+							life, rv.W, cl.descEv(a), cl.descEv(b), got, want)
+					}
+				}
+			}
+		}
 	}
 	ident := map[int]int{}
 	for _, g := range ord {
 		ident[cl.pool[g].L] = cl.pool[g].L
 	}
-	life(1, er.RV, er.PV, er.D, ident)
+	life(1, er.RV, er.PV, er.D, ident, ord)
 	// second life: same ids, other weights
 	ws2 := make([]uint64, len(er.ids))
 	var tot uint64
@@ -548,8 +564,140 @@ func (x *extras) indexReuse() {
 		}
 		lmap[pe.L] = d2.Add(uint32(pe.Ev.Creator()), uint32(pe.Ev.Seq()), uint32(pe.Ev.Lamport()), uint32(pe.Ev.Frame()), ps).I
 	}
-	life(2, rv2, b.Build(), d2, lmap)
+	life(2, rv2, b.Build(), d2, lmap, ord)
 	c.Probe("index_reused_after_reset")
+	// third life: the same object is reset onto an empty database and receives only a part of the events (a
+	// rolled-back history): nothing remembered from the longer history may show
+	k := len(ord) * 2 / 3
+	if k >= 2 {
+		d3 := ref.NewDAG(rv2)
+		lmap3 := map[int]int{}
+		for _, g := range ord[:k] {
+			pe := cl.pool[g]
+			var ps []int
+			for _, p := range cl.parentsG(pe) {
+				ps = append(ps, lmap3[cl.pool[p].L])
+			}
+			lmap3[pe.L] = d3.Add(uint32(pe.Ev.Creator()), uint32(pe.Ev.Seq()), uint32(pe.Ev.Lamport()), uint32(pe.Ev.Frame()), ps).I
+		}
+		life(3, rv2, b.Build(), d3, lmap3, ord[:k])
+		c.Probe("index_reused_for_a_shorter_history")
+	}
+	// fourth and fifth life: two histories that continue differently after a common part (the two sides of a
+	// fork, each without the other side and its descendants): events with the same creator and sequence number
+	// but different ancestry are indexed by the same object one history after the other
+	bySlot := map[[2]uint32][]int{}
+	for _, g := range ord {
+		pe := cl.pool[g]
+		k := [2]uint32{uint32(pe.Ev.Creator()), uint32(pe.Ev.Seq())}
+		bySlot[k] = append(bySlot[k], g)
+	}
+	s1, s2 := -1, -1
+	for _, g := range ord { // first fork pair in processing order (deterministic)
+		pe := cl.pool[g]
+		if l := bySlot[[2]uint32{uint32(pe.Ev.Creator()), uint32(pe.Ev.Seq())}]; len(l) >= 2 {
+			s1, s2 = l[0], l[1]
+			break
+		}
+	}
+	if s1 >= 0 {
+		without := func(s int) []int {
+			has := map[int]bool{s: true}
+			var r []int
+			for _, g := range ord {
+				for _, p := range cl.parentsG(cl.pool[g]) {
+					if has[p] {
+						has[g] = true
+					}
+				}
+				if !has[g] {
+					r = append(r, g)
+				}
+			}
+			return r
+		}
+		listA, listB := without(s2), without(s1)
+		inB := map[int]bool{}
+		for _, g := range listB {
+			inB[g] = true
+		}
+		inA := map[int]bool{}
+		var common, restA, restB []int
+		for _, g := range listA {
+			inA[g] = true
+			if inB[g] {
+				common = append(common, g)
+			} else {
+				restA = append(restA, g)
+			}
+		}
+		for _, g := range listB {
+			if !inA[g] {
+				restB = append(restB, g)
+			}
+		}
+		pv2 := b.Build()
+		mkRef := func(list []int) (*ref.DAG, map[int]int) {
+			dd := ref.NewDAG(rv2)
+			lm := map[int]int{}
+			for _, g := range list {
+				pe := cl.pool[g]
+				var ps []int
+				for _, p := range cl.parentsG(pe) {
+					ps = append(ps, lm[cl.pool[p].L])
+				}
+				lm[pe.L] = dd.Add(uint32(pe.Ev.Creator()), uint32(pe.Ev.Seq()), uint32(pe.Ev.Lamport()), uint32(pe.Ev.Frame()), ps).I
+			}
+			return dd, lm
+		}
+		addAll := func(what string, list []int) {
+			for _, g := range list {
+				if err := index.Add(cl.pool[g].Ev); err != nil {
+					c.Violation("index-add-error", "index-add-error", "direct index drive (%s): Add(%s) = %v", what, cl.descEv(cl.pool[g]), err)
+				}
+				index.Flush()
+			}
+		}
+		allPairs := func(what string, list []int) {
+			dd, lm := mkRef(list)
+			for _, ga := range list {
+				for _, gb := range list {
+					a, bb := cl.pool[ga], cl.pool[gb]
+					got := index.ForklessCause(a.Ev.ID(), bb.Ev.ID())
+					want := dd.ForklessCause(lm[a.L], lm[bb.L])
+					c.Count("fc_queries", 1)
+					if cl.on["fc"] && got != want {
+						c.Violation("forkless-cause", "forkless-cause/direct-index", "direct index drive, %s (weights %v): ForklessCause(A=%s, B=%s) = %v, graph definition says %v",
+							what, rv2.W, cl.descEv(a), cl.descEv(bb), got, want)
+					}
+				}
+			}
+		}
+		if len(common) >= 1 && len(restA) >= 1 && len(restB) >= 1 && len(listA) <= 90 && len(listB) <= 90 {
+			func() {
+				defer func() {
+					if r := recover(); r != nil {
+						if cp, ok := r.(critPanic); ok {
+							c.Violation("crit", "crit:"+critSig(cp.err.Error()), "direct index drive (different continuations): %v", cp.err)
+						}
+						panic(r)
+					}
+				}()
+				// history A on a fresh database; the database is copied when the common part is in
+				db0 := memorydb.New()
+				index.Reset(pv2, db0, getEvent)
+				addAll("history A, common part", common)
+				snap := copyStore(db0)
+				addAll("history A, its own continuation", restA)
+				allPairs("history A", listA)
+				// the same index object is reset onto the copy (the rolled-back database) and receives the other continuation
+				index.Reset(pv2, snap, getEvent)
+				addAll("history B (index object and database state re-used after history A)", restB)
+				allPairs("history B, continued from the database state before history A diverged, same index object", listB)
+			}()
+			c.Probe("index_reused_for_a_different_continuation")
+		}
+	}
 }
 
 func (cl *Cluster) firstLive() *Node {
